@@ -17,6 +17,7 @@ structure Script where
   finishAt : Nat                 -- get_all_done()   iff  t ≥ finishAt
   noms     : List (List Aid)     -- nomination at time t (0 = after reset); beyond: everybody
   undoneAt : List Nat := []      -- agent a stops being done again at t ≥ undoneAt[a] (a "revive"); default never
+  unit     : Int := 1            -- every accrual is a multiple of this amount (big units: rewards beyond 2^53)
 deriving Repr
 
 structure StubSt where
@@ -38,7 +39,7 @@ def stubSim (sc : Script) : SimIface StubSt Int (List Int) (List Int) where
   step := fun s acts =>
     let t' := s.t + 1
     { s with t := t',
-             pend := (List.range sc.n).map (fun a => s.pend.getD a 0 + stubAccr a t' (acts.lookup a)) }
+             pend := (List.range sc.n).map (fun a => s.pend.getD a 0 + sc.unit * stubAccr a t' (acts.lookup a)) }
   obs := fun s a => ([(s.ep : Int), s.t, a, s.reads.getD a 0], { s with reads := bump s.reads a })
   reward := fun s a => (s.pend.getD a 0, { s with pend := s.pend.set a 0 })
   done := fun s a => decide (sc.doneAt.getD a 0 ≤ s.t) && !decide (sc.undoneAt.getD a 1000000 ≤ s.t)
